@@ -30,14 +30,23 @@ ASSUME /\ Utf8(65) = <<65>> /\ Utf8(233) = <<195, 169>> /\ Utf8(19990) = <<228, 
 
 K0 == [ev |-> "key", name |-> "", code |-> 101, mods |-> 0, lower |-> TRUE, shifted |-> 69, etype |-> "press", text |-> <<>>,
        decckm |-> FALSE, deckpam |-> FALSE, bytes |-> <<101>>, n |-> 1, rt |-> TRUE, rtnoalt |-> TRUE, ctrlm |-> <<>>,
-       allkeys |-> TRUE, gottext |-> <<101>>, gotname |-> "", gotmods |-> 0]
+       allkeys |-> TRUE, gottext |-> <<101>>, gotname |-> "", gotmods |-> 0, samekey |-> TRUE]
 KP(n, pam, b) == [K0 EXCEPT !.name = n, !.code = 0, !.deckpam = pam, !.bytes = b]
 ASSUME \A n \in Keypad \cup KeypadOps \cup {"KP_ENTER"} :
           /\ ModeBytes(KP(n, FALSE, <<>>)) = {<<KeypadChar(n)>>}
           /\ ModeBytes(KP(n, FALSE, <<>>)) \subseteq ModeBytes(KP(n, TRUE, <<>>))
           /\ <<27, 79, KeypadFinal(n)>> \in ModeBytes(KP(n, TRUE, <<>>))
           /\ KeyWhy(KP(n, TRUE, <<>>)) = "nothing-written" /\ KeyWhy(KP(n, FALSE, <<27, 79, KeypadFinal(n)>>)) = "mode-selected-encoding"
-          /\ KeyWhy(KP(n, TRUE, <<27, 79, KeypadFinal(n)>>)) = "ok" /\ KeyWhy(KP(n, TRUE, <<KeypadChar(n)>>)) = "ok"
+          \* (the records carry no text: the keys as a host without the kitty protocol delivers them; with text the same holds)
+          /\ \A t \in {<<>>, <<KeypadChar(n)>>} :
+               LET chr == [KP(n, TRUE, <<KeypadChar(n)>>) EXCEPT !.text = t, !.gottext = <<KeypadChar(n)>>, !.gotname = IF n = "KP_ENTER" THEN "ENTER" ELSE ""]
+                   ss3 == [KP(n, TRUE, <<27, 79, KeypadFinal(n)>>) EXCEPT !.text = t, !.gotname = n, !.gottext = <<>>] IN
+               /\ KeyWhy(ss3) = "ok" /\ KeyWhy(chr) = "ok" /\ KeyWhy([chr EXCEPT !.deckpam = FALSE]) = "ok"
+               /\ KeyWhy([ss3 EXCEPT !.deckpam = FALSE]) = "mode-selected-encoding"
+               /\ KeyWhy([ss3 EXCEPT !.gotname = "KP_BEGIN"]) = "keypad-code-not-decoded-as-its-key"
+               /\ KeyWhy([ss3 EXCEPT !.n = 0]) = "not-one-key-event"
+               /\ KeyWhy([chr EXCEPT !.gottext = <<>>, !.gotname = ""]) = "keypad-character-not-decoded"
+               /\ KeyWhy([chr EXCEPT !.bytes = <<>>]) = "nothing-written" /\ KeyWhy([chr EXCEPT !.bytes = <<>>, !.deckpam = FALSE]) = "nothing-written"
 ASSUME \A n \in KeypadNav : \A m \in 0..7 :
           /\ KeyWhy([KP(n, FALSE, <<27, 91, 68>>) EXCEPT !.mods = m, !.gotname = Twin(n), !.gotmods = m]) = "ok"
           /\ KeyWhy([KP(n, FALSE, <<>>) EXCEPT !.mods = m]) = "nothing-written"
@@ -60,6 +69,25 @@ ASSUME /\ KeyWhy([K0 EXCEPT !.code = 46, !.mods = Alt, !.lower = FALSE, !.bytes 
        /\ KeyWhy([K0 EXCEPT !.code = 233, !.mods = Alt, !.shifted = 201, !.bytes = <<27, 195, 169>>, !.n = 1, !.rt = FALSE, !.rtnoalt = TRUE]) = "alt-lost-decoding-esc-nonascii"
        /\ KeyWhy([K0 EXCEPT !.code = 233, !.mods = Alt, !.shifted = 201, !.bytes = <<27, 195, 169>>, !.n = 1, !.rt = FALSE, !.rtnoalt = FALSE]) = "decoded-key-does-not-match"
        /\ KeyWhy([K0 EXCEPT !.code = 233, !.mods = Alt, !.shifted = 201, !.bytes = <<>>, !.n = 0]) = "nothing-written"
+\* Ctrl + a key whose control code several keys share, typed with or without Shift: any key of the class is accepted, the bare key is not
+CS(c, sh, m, b, cm) == [K0 EXCEPT !.code = c, !.shifted = sh, !.lower = FALSE, !.mods = m, !.bytes = b, !.ctrlm = cm, !.rt = FALSE]
+ASSUME /\ KeyWhy(CS(45, 95, Ctrl + Shift, <<31>>, <<47, 55, 95>>)) = "ok" /\ KeyWhy(CS(45, 95, Ctrl + Shift, <<31>>, <<95>>)) = "ok"
+       /\ KeyWhy(CS(45, 95, Ctrl + Shift, <<45>>, <<>>)) = "decoded-key-not-in-shared-control-class"
+       /\ KeyWhy(CS(45, 95, Ctrl + Shift, <<>>, <<>>)) = "nothing-written"
+       /\ KeyWhy(CS(50, 64, Ctrl + Shift, <<0>>, <<32>>)) = "ok" /\ KeyWhy(CS(54, 94, Ctrl + Shift, <<30>>, <<94>>)) = "ok"
+       /\ KeyWhy(CS(54, 94, Ctrl + Shift, <<30>>, <<95>>)) = "decoded-key-not-in-shared-control-class"
+       /\ KeyWhy(CS(45, 95, Ctrl, <<45>>, <<>>)) = "ok"                  \* Ctrl+- has no control code: not expressible, nothing demanded
+       /\ KeyWhy(CS(49, 33, Ctrl + Shift, <<49>>, <<>>)) = "ok"          \* Ctrl+! neither
+       /\ KeyWhy(CS(55, 38, Ctrl, <<31>>, <<47>>)) = "ok" /\ KeyWhy(CS(55, 38, Ctrl, <<55>>, <<>>)) = "decoded-key-not-in-shared-control-class"
+\* Ctrl + a key beyond ASCII: the character itself (with or without Alt's ESC) or nothing is accepted, a control code or another key is not
+NA(m, b, k, same) == [K0 EXCEPT !.code = 233, !.shifted = 201, !.mods = m, !.bytes = b, !.n = k, !.rt = FALSE, !.samekey = same]
+ASSUME \A m \in {Ctrl, Ctrl + Shift, Ctrl + Alt, Ctrl + Alt + Shift} :
+          /\ KeyWhy(NA(m, <<195, 169>>, 1, TRUE)) = "ok" /\ KeyWhy(NA(m, <<27, 195, 169>>, 1, TRUE)) = "ok" /\ KeyWhy(NA(m, <<>>, 0, FALSE)) = "ok"
+          /\ KeyWhy(NA(m, <<194, 137>>, 0, FALSE)) = "control-code-written-for-key-without-one"
+          /\ KeyWhy(NA(m, <<27, 194, 137>>, 0, FALSE)) = "control-code-written-for-key-without-one"
+          /\ KeyWhy(NA(m, <<127>>, 1, FALSE)) = "control-code-written-for-key-without-one"
+          /\ KeyWhy(NA(m, <<207, 161>>, 1, FALSE)) = "arrives-as-another-key"
+ASSUME KeyWhy(NA(Alt, <<27, 195, 169>>, 0, FALSE)) = "alt-lost-decoding-esc-nonascii" /\ KeyWhy([NA(Ctrl, <<1>>, 1, TRUE) EXCEPT !.code = 97, !.rt = TRUE]) = "ok"
 W(btn, ckm, b) == [button |-> btn, type |-> "press", alt |-> TRUE, m1007 |-> TRUE, m1000 |-> FALSE, m1002 |-> FALSE, m1003 |-> FALSE, m1006 |-> FALSE,
                    decckm |-> ckm, bytes |-> b]
 ASSUME \A btn \in {64, 65} : \A ckm \in BOOLEAN : \A k \in 1..3 :
